@@ -121,9 +121,11 @@ theorem decodeWord_packWord (src : List Nat) (k n b : Nat)
     have e : packWord k n 0 src = k * 2 ^ 60 := by simp [packWord]
     rw [e]
     constructor
-    · unfold decodeWord
-      have : k * 2 ^ 60 / 2 ^ 60 = k := Nat.mul_div_cancel _ (Nat.pow_pos (by decide))
-      rw [this, hk]; simp [canPack_zero hc]
+    · have hdiv : k * 2 ^ 60 / 2 ^ 60 = k := Nat.mul_div_cancel _ (Nat.pow_pos (by decide))
+      have hrow : selTable[k * 2 ^ 60 / 2 ^ 60]? = some (n, 0) := by rw [hdiv]; exact hk
+      unfold decodeWord
+      rw [hrow]
+      simp [decodeRow, canPack_zero hc]
     · omega
   · have hv := canPack_pos hb hc
     have hlen : (src.take n).length = n := by simp; omega
@@ -133,15 +135,17 @@ theorem decodeWord_packWord (src : List Nat) (k n b : Nat)
     have e : packWord k n b src = k * 2 ^ 60 + packVals b (src.take n) := by simp [packWord, hb]
     rw [e]
     constructor
-    · unfold decodeWord
-      have hdiv : (k * 2 ^ 60 + packVals b (src.take n)) / 2 ^ 60 = k := by
+    · have hdiv : (k * 2 ^ 60 + packVals b (src.take n)) / 2 ^ 60 = k := by
         have : packVals b (src.take n) < 2 ^ 60 := Nat.lt_of_lt_of_le hlt hpow
         omega
-      rw [hdiv, hk]
-      simp only [hb, if_false]
+      have hrow : selTable[(k * 2 ^ 60 + packVals b (src.take n)) / 2 ^ 60]? = some (n, b) := by
+        rw [hdiv]; exact hk
+      unfold decodeWord
+      rw [hrow]
+      simp only [decodeRow, hb, if_false]
       have e2 : k * 2 ^ 60 + packVals b (src.take n)
-          = packVals b (src.take n) + 2 ^ (b * (src.take n).length) * (2 ^ (60 - b * n) * k) := by
-        rw [hlen, ← Nat.mul_assoc, ← Nat.pow_add]
+          = packVals b (src.take n) + 2 ^ (b * n) * (2 ^ (60 - b * n) * k) := by
+        rw [← Nat.mul_assoc, ← Nat.pow_add]
         have : b * n + (60 - b * n) = 60 := by rw [Nat.mul_comm] ; omega
         rw [this]; omega
       rw [e2]
